@@ -38,6 +38,10 @@ type backend struct {
 	close func()
 	// fail arms the back end's own fault injection (reads, writes); nil when the back end cannot fail
 	fail func(reads, writes int)
+	// failFetch makes the next n accepted reads fail while their first row is fetched (SQL back ends)
+	failFetch func(n int)
+	// writeFault selects how injected write failures look (see ddb.Table.WriteFault) and what happens meanwhile
+	writeFault func(kind string, meanwhile func())
 }
 
 var v1sess = awssession.Must(awssession.NewSession(aws.NewConfig().WithRegion("us-west-2")))
@@ -56,7 +60,7 @@ func backends() []func() backend {
 				ms = persistence.NewSQLMetastore(h, persistence.WithSQLMetastoreDBType(persistence.Oracle))
 			}
 			return backend{name: "sql-" + string(d), ms: ms, probe: func() string { return "" }, close: func() { h.Close(); db.Drop() },
-				fail: func(rd, wr int) { db.SetFailReads(rd); db.SetFailWrites(wr) }}
+				fail: func(rd, wr int) { db.SetFailReads(rd); db.SetFailWrites(wr) }, failFetch: db.SetFailFetch}
 		}
 	}
 	ddbv1 := func(table string, suffix bool) func() backend {
@@ -72,6 +76,7 @@ func backends() []func() backend {
 			}
 			ms := v1p.NewDynamoDBMetastore(v1sess, opts...)
 			return backend{name: fmt.Sprintf("dynamodb-v1/table=%s/suffix=%v", name, suffix), ms: ms, close: func() {}, fail: t.SetFail,
+				writeFault: t.SetWriteFault,
 				probe: func() string {
 					if t.Inconsistent > 0 {
 						return fmt.Sprintf("%d read(s) were issued without ConsistentRead", t.Inconsistent)
@@ -96,6 +101,7 @@ func backends() []func() backend {
 				panic(err)
 			}
 			return backend{name: fmt.Sprintf("dynamodb-v2/table=%s/suffix=%v", name, suffix), ms: ms, close: func() {}, fail: t.SetFail,
+				writeFault: t.SetWriteFault,
 				probe: func() string {
 					if t.Inconsistent > 0 {
 						return fmt.Sprintf("%d read(s) were issued without ConsistentRead", t.Inconsistent)
@@ -656,6 +662,65 @@ func backendFaults(r *ev.Run) {
 			}
 			r.Count("backend_fault_cases", 1)
 			r.Distinct(fmt.Sprintf("fault|%s|%d", b.name, i))
+			// the statement is accepted and the connection drops while the row is fetched
+			if b.failFetch != nil {
+				for _, latest := range []bool{false, true} {
+					b.failFetch(1)
+					var got *appencryption.EnvelopeKeyRecord
+					var err error
+					if latest {
+						got, err = b.ms.LoadLatest(ctx, id)
+					} else {
+						got, err = b.ms.Load(ctx, id, want.Created)
+					}
+					b.failFetch(0)
+					if err == nil && got == nil {
+						r.Violation("read-fault-reported-as-absent:"+kind, fmt.Sprintf("backend %s: the read (latest=%v) of a stored record was accepted and then failed while the row was fetched; the metastore returned (nil, nil) - absent instead of an error", b.name, latest), nil)
+					} else if err == nil {
+						if d := world.DiffEKR(want, got); d != "" {
+							r.Violation("load-wrong-record:"+kind, fmt.Sprintf("backend %s: %s", b.name, d), nil)
+						}
+					}
+					r.Count("backend_fetch_fault_cases", 1)
+				}
+			}
+			// a write times out (never applied / applied with the response lost) while another client inserts a
+			// record under the same key: Store may report true only if the table then holds its record
+			if b.writeFault != nil {
+				for k, fk := range []string{"timeout-lost", "timeout-applied"} {
+					for _, rival := range []bool{false, true} {
+						id3 := fmt.Sprintf("%s-t%d%v", id, k, rival)
+						mine := &appencryption.EnvelopeKeyRecord{Created: want.Created, EncryptedKey: []byte("mine-" + id3), ParentKeyMeta: want.ParentKeyMeta}
+						other := &appencryption.EnvelopeKeyRecord{Created: want.Created, EncryptedKey: []byte("rival-" + id3), ParentKeyMeta: want.ParentKeyMeta}
+						rivalStored := false
+						var meanwhile func()
+						if rival {
+							meanwhile = func() { rivalStored, _ = b.ms.Store(ctx, id3, other.Created, other) }
+						}
+						b.writeFault(fk, meanwhile)
+						b.fail(0, 1)
+						ok, serr := b.ms.Store(ctx, id3, mine.Created, mine)
+						b.fail(0, 0)
+						b.writeFault("", nil)
+						got, lerr := b.ms.Load(ctx, id3, mine.Created)
+						switch {
+						case lerr != nil:
+							r.Violation("load-after-fault:"+kind, fmt.Sprintf("backend %s: Load after a timed-out write: %v", b.name, lerr), nil)
+						case ok && got == nil:
+							r.Violation("failed-write-reported-stored:"+kind, fmt.Sprintf("backend %s (%s, rival=%v): Store returned true but no record exists", b.name, fk, rival), nil)
+						case ok && world.DiffEKR(mine, got) != "":
+							r.Violation("store-duplicate-reported-success:"+kind, fmt.Sprintf("backend %s (%s, rival writer stored=%v): Store returned (true, %v) for a write that timed out, but the table holds another writer's record under (%s,%d): %s", b.name, fk, rivalStored, serr, id3, mine.Created, world.DiffEKR(mine, got)), nil)
+						case got != nil && world.DiffEKR(mine, got) != "" && world.DiffEKR(other, got) != "":
+							r.Violation("load-wrong-record:"+kind, fmt.Sprintf("backend %s: record under (%s,%d) is neither writer's", b.name, id3, mine.Created), nil)
+						}
+						if rival && rivalStored && got != nil && fk == "timeout-applied" && world.DiffEKR(mine, got) != "" {
+							r.Violation("stored-record-changed:"+kind, fmt.Sprintf("backend %s: the applied write was replaced by a later writer", b.name), nil)
+						}
+						r.Count("backend_timeout_cases", 1)
+						r.Distinct(fmt.Sprintf("timeout|%s|%s|%v", kind, fk, rival))
+					}
+				}
+			}
 		}
 		b.close()
 	}
